@@ -14,6 +14,7 @@ from ..dataflow import Defs, calls_in, stmt_of
 from ..dtable import run as drun
 from ..index import AnalysisError, call_name, dotted, enclosing, head, norm, walk_body
 from ..monitor import Monitor
+from ..pattern import find as pfind, has_fact, local_defined_as, pmatch
 from ..rules import COMPOUND, kw, node_calls, own_calls, prov_at
 from ..witness import W
 from . import c05
@@ -86,7 +87,7 @@ def r2_fetch_gate(chk, repo):
         def gate_or_free(n):
             if _gate(n):
                 return True
-            if n.kind == "guard" and n.test is not None and ("d in flow_freely", True) in literals(n.test, n.polarity):
+            if n.kind == "guard" and n.test is not None and n.polarity and pmatch(f"{norm(g.stmt.target)} in flow_freely", n.test) is not None:
                 return True
             return False
 
@@ -107,7 +108,10 @@ def r3_wiring(chk, repo):
     chk.describe("C13.R3", "lazy mode only without worker pools; the same flag reaches mailboxes and dividers; savers of computed data never drive; flow-freely outputs = produced - required")
     f = repo.func("ThreadedMailboxProcessor.__init__", THREADED)
     cfg = cfg_of(f)
-    lz = [n for n in cfg.stmt_nodes() if isinstance(n.stmt, ast.Assign) and norm(n.stmt.targets[0]) == "lazy"]
+    md0 = [c for c in calls_in(f.node) if call_name(c) == "MailboxDict"]
+    LAZY = norm(kw(md0[0], "lazy")) if md0 and isinstance(kw(md0[0], "lazy"), ast.Name) else None
+    chk.need(LAZY is not None, "C13.R3: the lazy flag given to MailboxDict is not a local")
+    lz = [n for n in cfg.stmt_nodes() if isinstance(n.stmt, ast.Assign) and norm(n.stmt.targets[0]) == LAZY]
     chk.floor("C13.R3", "assignments of the lazy flag", len(lz), 2)
     for n in lz:
         facts = cfg.guard_facts(n)
@@ -117,24 +121,40 @@ def r3_wiring(chk, repo):
         else:
             chk.check(v == "False" and ("max_workers in [None, 1]", False) in facts, "C13.R3", f, n.stmt, "lazy mode enabled together with worker pools (futures would be created without demand)", site_text="lazy = False with worker pools", site={"function": f.qualname, "construct": "lazy with executors"})
     md = [c for c in calls_in(f.node) if call_name(c) == "MailboxDict"]
-    chk.check(len(md) == 1 and kw(md[0], "lazy") is not None and norm(kw(md[0], "lazy")) == "lazy", "C13.R3", f, None, "mailboxes are not created with the processor's lazy flag", site_text="MailboxDict(lazy=lazy)")
+    chk.check(len(md) == 1 and kw(md[0], "lazy") is not None and norm(kw(md[0], "lazy")) == LAZY, "C13.R3", f, None, "mailboxes are not created with the processor's lazy flag", site_text="MailboxDict(lazy=lazy)")
     dv = [c for c in calls_in(f.node) if call_name(c) == "partial" and c.args and (dotted(c.args[0]) or "").endswith("divide_outputs")]
-    chk.check(bool(dv) and all(kw(c, "lazy") is not None and norm(kw(c, "lazy")) == "lazy" for c in dv), "C13.R3", f, None, "output dividers do not get the processor's lazy flag", site_text="divide_outputs(lazy=lazy)")
-    chk.check(bool(dv) and all(kw(c, "flow_freely") is not None and norm(kw(c, "flow_freely")) == "to_flow_freely" for c in dv), "C13.R3", f, None, "dividers do not get the flow-freely set", site_text="divide_outputs(flow_freely=to_flow_freely)")
-    ff = [n for n in walk_body(f.node) if isinstance(n, ast.Assign) and norm(n.targets[0]) == "to_flow_freely"]
-    chk.check(bool(ff) and norm(ff[0].value) == "produced - required", "C13.R3", f, ff[0] if ff else None, "flow-freely outputs are not exactly the produced-but-not-required ones", site_text="to_flow_freely = produced - required")
-    td = [n for n in walk_body(f.node) if isinstance(n, ast.Assign) and norm(n.targets[0]) == "to_discard"]
-    chk.check(bool(td) and norm(td[0].value) == "to_flow_freely - saved", "C13.R3", f, None, "outputs nobody reads are not exactly flow-freely minus saved", site_text="to_discard = to_flow_freely - saved")
-    cd = [n for n in cfg.stmt_nodes() if isinstance(n.stmt, ast.Assign) and norm(n.stmt.targets[0]) == "can_drive"]
+    chk.check(bool(dv) and all(kw(c, "lazy") is not None and norm(kw(c, "lazy")) == LAZY for c in dv), "C13.R3", f, None, "output dividers do not get the processor's lazy flag", site_text="divide_outputs(lazy=lazy)")
+    FF = norm(kw(dv[0], "flow_freely")) if dv and isinstance(kw(dv[0], "flow_freely"), ast.Name) else None
+    chk.check(bool(dv) and FF is not None and all(norm(kw(c, "flow_freely")) == FF for c in dv), "C13.R3", f, None, "dividers do not get the flow-freely set", site_text="divide_outputs(flow_freely=<flow-freely set>)")
+    ff = [n for n in walk_body(f.node) if isinstance(n, ast.Assign) and FF and norm(n.targets[0]) == FF]
+    okff = False
+    if ff:
+        b = pmatch("L_p - L_r", ff[0].value)
+        if b and pfind(f.node, f"{b['L_p']} = set(components.loaders)") and pfind(f.node, f"{b['L_r']} = set(components.targets)") and pfind(f.node, f"{b['L_p']}.update(L_pl.provides)") and pfind(f.node, f"{b['L_r']}.update(L_pl.depends_on)"):
+            okff = True
+    chk.check(okff, "C13.R3", f, ff[0] if ff else None, "flow-freely outputs are not exactly the produced-but-not-required ones", site_text="to_flow_freely = produced - required")
+    disc = [n for n in walk_body(f.node) if isinstance(n, ast.For) and isinstance(n.iter, ast.Name) and any(isinstance(c.func, ast.Attribute) and c.func.attr == "add_reader" and any("discarder" in norm(a) for a in c.args) for c in calls_in(n))]
+    DISC = disc[0].iter.id if disc else None
+    td = [n for n in walk_body(f.node) if isinstance(n, ast.Assign) and DISC and norm(n.targets[0]) == DISC]
+    oktd = False
+    if td and FF:
+        b = pmatch(f"{FF} - L_saved", td[0].value)
+        if b and pfind(f.node, f"{b['L_saved']} = set([L_k for L_k, L_v in components.savers.items() if L_v])"):
+            oktd = True
+    chk.check(oktd, "C13.R3", f, None, "outputs nobody reads are not exactly flow-freely minus saved", site_text="to_discard = to_flow_freely - saved")
+    ar0 = [c for c in calls_in(f.node) if isinstance(c.func, ast.Attribute) and c.func.attr == "add_reader" and any("save_from" in norm(a) for a in c.args)]
+    CD = norm(kw(ar0[0], "can_drive")) if ar0 and isinstance(kw(ar0[0], "can_drive"), ast.Name) else None
+    cd = [n for n in cfg.stmt_nodes() if isinstance(n.stmt, ast.Assign) and CD and norm(n.stmt.targets[0]) == CD]
     chk.floor("C13.R3", "can_drive assignments", len(cd), 2)
     for n in cd:
         facts = cfg.guard_facts(n)
-        if ("d in dtypes_built", True) in facts:
-            chk.check(norm(n.stmt.value) == "not lazy", "C13.R3", f, n.stmt, "a saver of computed data may drive production in lazy mode (production is then not limited by the consumer)", site_text="savers of built types: can_drive = not lazy", site={"function": f.qualname, "construct": "saver can_drive"})
+        built = any(p and pmatch("L_d in L_built", ast.parse(t, mode="eval").body) is not None for t, p in facts)
+        if built:
+            chk.check(norm(n.stmt.value) == f"not {LAZY}", "C13.R3", f, n.stmt, "a saver of computed data may drive production in lazy mode (production is then not limited by the consumer)", site_text="savers of built types: can_drive = not lazy", site={"function": f.qualname, "construct": "saver can_drive"})
     ar = [c for c in calls_in(f.node) if isinstance(c.func, ast.Attribute) and c.func.attr == "add_reader" and any("save_from" in norm(a) for a in c.args)]
-    chk.check(bool(ar) and all(kw(c, "can_drive") is not None and norm(kw(c, "can_drive")) == "can_drive" for c in ar), "C13.R3", f, None, "savers subscribe without the can_drive decision", site_text="add_reader(save_from, can_drive=can_drive)")
-    mm = [n for n in walk_body(f.node) if isinstance(n, ast.Assign) and norm(n.targets[0]) == "m.max_messages"]
-    chk.check(any(norm(n.value) == "max_messages" for n in mm), "C13.R3", f, None, "mailbox capacity is not set from the requested max_messages", site_text="m.max_messages = max_messages")
+    chk.check(bool(ar) and CD is not None and all(kw(c, "can_drive") is not None and norm(kw(c, "can_drive")) == CD for c in ar), "C13.R3", f, None, "savers subscribe without the can_drive decision", site_text="add_reader(save_from, can_drive=can_drive)")
+    mm = [n for n, b in pfind(f.node, "L_m.max_messages = max_messages")]
+    chk.check(bool(mm), "C13.R3", f, None, "mailbox capacity is not set from the requested max_messages", site_text="m.max_messages = max_messages")
     init = repo.func("Mailbox.__init__", MAILBOX)
     icfg = cfg_of(init)
     inf = [n for n in icfg.stmt_nodes() if isinstance(n.stmt, ast.Assign) and norm(n.stmt.targets[0]) == "self.max_messages" and "inf" in norm(n.stmt.value)]
@@ -149,9 +169,12 @@ def r4_can_fetch_table(chk, repo):
     f = repo.func("Mailbox._can_fetch", MAILBOX)
     anys = [n for n in walk_body(f.node) if isinstance(n, ast.Call) and call_name(n) == "any"]
     any_text = norm(anys[0]) if len(anys) == 1 else "<missing>"
-    chk.check(len(anys) == 1 and "x is not None and x <= self._lowest_msg_number" in any_text and "self._subscriber_waiting_for" in any_text, "C13.R4", f, stmt_of(anys[0]) if anys else None, "the 'still waiting for a message we have' test changed", site_text="_can_fetch: any(x is not None and x <= lowest for x in waiting_for)")
+    chk.check(len(anys) == 1 and pmatch("any([L_x is not None and L_x <= self._lowest_msg_number for L_x in self._subscriber_waiting_for])", anys[0]) is not None, "C13.R4", f, stmt_of(anys[0]) if anys else None, "the 'still waiting for a message we have' test changed", site_text="_can_fetch: any(x is not None and x <= lowest for x in waiting_for)")
     lp = [n for n in walk_body(f.node) if isinstance(n, ast.For)]
     chk.check(len(lp) == 1 and "self._subscriber_can_drive" in norm(lp[0].iter) and "self._subscriber_waiting_for" in norm(lp[0].iter), "C13.R4", f, None, "driver scan does not pair can_drive with waiting_for", site_text="_can_fetch: zip(can_drive, waiting_for)")
+    CDV, WFV = "can_drive", "waiting_for"
+    if len(lp) == 1 and isinstance(lp[0].target, ast.Tuple) and len(lp[0].target.elts) == 2:
+        CDV, WFV = norm(lp[0].target.elts[0]), norm(lp[0].target.elts[1])
     rows = 0
     for killed in (False, True):
         for has_msgs in (False, True):
@@ -169,9 +192,9 @@ def r4_can_fetch_table(chk, repo):
                                 return stale
                             if text.startswith("for:"):
                                 return True
-                            if text == "can_drive":
+                            if text == CDV:
                                 return drv
-                            if text == "waiting_for is not None":
+                            if text == f"{WFV} is not None":
                                 return wait
                             return None
                         out = drun(f.node, oracle)
@@ -186,14 +209,18 @@ def r5_demand(chk, repo):
     chk.describe("C13.R5", "a reader records which message it is waiting for before it waits and withdraws the demand before it extracts messages")
     f = repo.func("Mailbox._read", MAILBOX)
     cfg = cfg_of(f)
-    want = [n for n in cfg.stmt_nodes() if isinstance(n.stmt, ast.Assign) and norm(n.stmt.targets[0]) == "self._subscriber_waiting_for[subscriber_i]" and norm(n.stmt.value) == "next_number"]
-    none = [n for n in cfg.stmt_nodes() if isinstance(n.stmt, ast.Assign) and norm(n.stmt.targets[0]) == "self._subscriber_waiting_for[subscriber_i]" and norm(n.stmt.value) == "None"]
+    sub = f.params[1]
+    want = [n for n in cfg.stmt_nodes() if isinstance(n.stmt, ast.Assign) and norm(n.stmt.targets[0]) == f"self._subscriber_waiting_for[{sub}]" and isinstance(n.stmt.value, ast.Name)]
+    none = [n for n in cfg.stmt_nodes() if isinstance(n.stmt, ast.Assign) and norm(n.stmt.targets[0]) == f"self._subscriber_waiting_for[{sub}]" and norm(n.stmt.value) == "None"]
     waits = [n for n in cfg.stmt_nodes() if any((call_name(c) or "").endswith("_read_condition.wait_for") for c in own_calls(n.stmt))]
-    chk.check(bool(want) and bool(waits) and all(any(w in cfg.dominators("n")[x] for w in want) for x in waits), "C13.R5", f, None, "a reader waits without having published which message it needs: the lazy sender never learns about the demand", site_text="_read: demand stored before waiting", site={"function": f.qualname, "construct": "demand before wait"})
     ext = [n for n in cfg.stmt_nodes() if any(call_name(c) == "self._get_msg" for c in own_calls(n.stmt))]
+    # the published number is the one that is extracted next
+    counters = {norm(c.args[0]) for n in ext for c in own_calls(n.stmt) if call_name(c) == "self._get_msg" and c.args}
+    okw = bool(want) and all(norm(w.stmt.value) in counters for w in want)
+    chk.check(okw and bool(waits) and all(any(w in cfg.dominators("n")[x] for w in want) for x in waits), "C13.R5", f, None, "a reader waits without having published which message it needs: the lazy sender never learns about the demand", site_text="_read: demand (the next message number) stored before waiting", site={"function": f.qualname, "construct": "demand before wait"})
     chk.check(bool(none) and bool(ext) and all(any(x in cfg.dominators("n")[e] for x in none) for e in ext), "C13.R5", f, None, "demand is still published while the reader processes messages: the sender keeps fetching for a reader that is not waiting", site_text="_read: demand withdrawn before extraction", site={"function": f.qualname, "construct": "demand withdrawn"})
     for w in want:
-        chk.check(("next_ready()", False) in cfg.guard_facts(w), "C13.R5", f, w.stmt, "demand published although the message is already there", site_text="_read: demand only when the message is not ready", nontrivial=False)
+        chk.check(any(p is False and t.endswith("()") for t, p in cfg.guard_facts(w)), "C13.R5", f, w.stmt, "demand published although the message is already there", site_text="_read: demand only when the message is not ready", nontrivial=False)
 
 
 WITNESSES = [
